@@ -55,7 +55,8 @@ inline PDU* make_default(...) { return 0; }
 
 // base objects the generated variants start from: classes whose wire format depends on a message type get one base per type
 template <class Q> std::vector<PDU*> make_bases(Q*) { std::vector<PDU*> v; if (PDU* p = make_default((Q*)0)) v.push_back(p); return v; }
-inline std::vector<PDU*> make_bases(ICMPv6*) { return {new ICMPv6(ICMPv6::ROUTER_ADVERT), new ICMPv6(ICMPv6::NEIGHBOUR_SOLICIT), new ICMPv6(ICMPv6::ECHO_REQUEST), new ICMPv6(ICMPv6::MGM_QUERY), new ICMPv6(ICMPv6::MLD2_REPORT), new ICMPv6(ICMPv6::REDIRECT)}; }
+// (neighbour-discovery types only: option setters on an MLD or echo message would build packets no specification describes)
+inline std::vector<PDU*> make_bases(ICMPv6*) { return {new ICMPv6(ICMPv6::ROUTER_ADVERT), new ICMPv6(ICMPv6::NEIGHBOUR_SOLICIT), new ICMPv6(ICMPv6::REDIRECT)}; }
 inline std::vector<PDU*> make_bases(ICMP*) { return {new ICMP(ICMP::ECHO_REQUEST), new ICMP(ICMP::TIMESTAMP_REQUEST), new ICMP(ICMP::ADDRESS_MASK_REQUEST), new ICMP(ICMP::DEST_UNREACHABLE)}; }
 inline std::vector<PDU*> make_bases(DHCPv6*) { DHCPv6* r = new DHCPv6(); r->msg_type(DHCPv6::RELAY_FORWARD); return {new DHCPv6(), r}; }
 inline std::vector<PDU*> make_bases(PPPoE*) { PPPoE* d = new PPPoE(); d->code(0x09); return {d, new PPPoE()}; }
